@@ -8,7 +8,8 @@ from .. import gen, scen
 from .. import refsnmp as S
 from ..refber import BerError
 from ..runner import rng_for
-from ..world import PASSWORDS, World, agent_for
+from ..agent import RefAgent
+from ..world import PASSWORDS, World, agent_user, make_credentials
 
 ID = "C05"
 LEVEL = "exploration"
@@ -16,7 +17,9 @@ RULE = ("Seeded plans: every API operation (get, multiget, getnext, multigetnext
         "bulkwalk, table, bulktable, and the v3 discovery probe) with OIDs of 2-128 arcs (sub-identifiers 0, 127, 128, 16383, "
         "16384, 2^21, 2^28, 2^32-1), SET values of every type over their ranges (strings to 2000 octets), wall-clock epochs "
         "making request ids cross every INTEGER length boundary inside Integer32, communities (printable ASCII, 0-64), context "
-        "names, configured context engine ids, agent engine ids of 5-32 octets, v1/v2c/v3 x 3 levels. Every datagram handed to "
+        "names, configured context engine ids, agent engine ids of 5-32 octets, v1/v2c/v3 x 3 levels; in a third of the plans "
+        "the credentials (same or other family) and the context change between operations (Client.configure) and every later "
+        "datagram must follow the configuration in force when it is sent. Every datagram handed to "
         "the recording sender seam is decoded by the independent strict decoder and compared with the intent record. "
         "Non-trivial: >=1 datagram compared; distinct = distinct (protocol level, operation sequence, request-id byte length, "
         "longest OID class, SET kinds).")
@@ -26,7 +29,7 @@ ASSUMPTIONS = [
 ]
 PROBES = ["oid_128_arcs", "subid_2_32", "str_2000", "rid_1_octet", "rid_2_octets", "rid_3_octets", "rid_4_octets",
           "community_empty", "community_64", "context_name", "configured_engine_id", "engine_id_32", "v1", "v3_priv",
-          "walk_followup", "c64_set"]
+          "walk_followup", "c64_set", "reconfigured"]
 shrink_lists = [("ops",)]
 ALL_OPS = ["get", "multiget", "getnext", "multigetnext", "walk", "multiwalk", "set", "multiset", "bulkget", "bulkwalk",
            "table", "bulktable"]
@@ -104,18 +107,40 @@ def plan_for(tier: str, seed: int, i: int) -> dict:
             ops.append({"op": k, "oid": base + (1,)})
         else:
             ops.append({"op": k, "oid": base, "bulk": rng.choice([1, 5, 50])})
+    protos = [proto]
+    if rng.random() < 0.35:
+        # the configuration in force changes between operations: every datagram must follow the one in force when sent
+        for _ in range(rng.randrange(1, 3)):
+            v2 = rng.choice(["v1", "v2c", "v2c", "v3", version, version])
+            if v2 != "v3":
+                p2: Dict[str, Any] = {"version": v2, "community": "".join(rng.choice(PRINTABLE) for _ in range(rng.choice([1, 6, 9])))}
+            else:
+                lvl = rng.choice([0, 1, 3])
+                p2 = {"version": "v3", "user": "%s-%d" % (rng.choice(["bob", "carol"]), len(protos)), "level": lvl}
+                if lvl & 1:
+                    p2.update({"auth": rng.choice(["md5", "sha1"]), "auth_pass": rng.choice(PASSWORDS)})
+                if lvl & 2:
+                    p2.update({"priv": rng.choice(["verifstream", "verifstream2"]), "priv_pass": rng.choice(PASSWORDS)})
+            protos.append(p2)
+        n_cfg = rng.randrange(1, 4)
+        for _ in range(n_cfg):
+            step: Dict[str, Any] = {"op": "configure", "proto": rng.randrange(len(protos))}
+            if rng.random() < 0.3:
+                step["context_name"] = gen.gen_bytes(rng, rng.choice([0, 3, 8]))
+            ops.insert(rng.randrange(0, len(ops) + 1), step)
+        ops.append({"op": "get", "oid": _gen_oid(rng, base)})
     clock = gen.gen_clock(rng)
     clock["epoch"] = rng.choice([0, 1, 100, 127, 128, 200, 255, 256, 30000, 32767, 32768, 2**23 - 2, 2**23, 10**9,
                                  1_790_000_000, 2**31 - 5000])
     eng_len = rng.choice([5, 5, 12, 17, 32, rng.randrange(5, 33)])
-    return {"prop": ID, "proto": proto, "mib": sorted(mib.items()), "ops": ops, "clock": clock,
+    return {"prop": ID, "proto": proto, "protos": protos, "mib": sorted(mib.items()), "ops": ops, "clock": clock,
             "context_name": gen.gen_bytes(rng, rng.choice([0, 0, 1, 8, 32])) if version == "v3" else b"",
             "engine_id_cfg": gen.gen_bytes(rng, rng.choice([5, 12, 32])) if version == "v3" and rng.random() < 0.3 else b"",
             "agent_engine_id": b"\x80" + gen.gen_bytes(rng, eng_len - 1)}
 
 
 def valid(plan: dict) -> bool:
-    return bool(plan["ops"])
+    return any(o["op"] != "configure" for o in plan["ops"])
 
 
 def simplify(plan: dict):
@@ -127,8 +152,18 @@ def execute(plan: dict) -> dict:
     proto = plan["proto"]
     version = proto["version"]
     w = World(clock=plan["clock"])
-    agent = w.add_agent(agent_for(proto, dict(plan["mib"]), engine_id=plan["agent_engine_id"])
-                        if version == "v3" else agent_for(proto, dict(plan["mib"])))
+    protos = plan.get("protos") or [proto]
+    comm: Dict[int, set] = {0: set(), 1: set()}
+    users = []
+    for pr in protos:
+        if pr["version"] == "v1":
+            comm[0].add(pr["community"].encode("ascii"))
+        elif pr["version"] == "v2c":
+            comm[1].add(pr["community"].encode("ascii"))
+        elif pr["user"] not in [u.name.decode() for u in users]:
+            users.append(agent_user(pr))
+    agent = w.add_agent(RefAgent(dict(plan["mib"]), communities=comm, users=users, engine_id=plan["agent_engine_id"]))
+    cur = {"proto": proto, "context_name": plan["context_name"]}
     kw = {}
     if version == "v3":
         kw = {"context_name": plan["context_name"], "engine_id": plan["engine_id_cfg"]}
@@ -149,6 +184,26 @@ def execute(plan: dict) -> dict:
             violation = {"clause": clause, "detail": d}
 
     for k, op in enumerate(plan["ops"]):
+        if op["op"] == "configure":
+            from puresnmp.api.raw import Context
+            newp = protos[op["proto"] % len(protos)]
+            kwc: Dict[str, Any] = {"credentials": make_credentials(newp)}
+            if "context_name" in op:
+                kwc["context"] = Context(plan["engine_id_cfg"], bytes(op["context_name"]))
+                cur["context_name"] = bytes(op["context_name"])
+            client.configure(**kwc)
+            if newp["version"] != cur["proto"]["version"]:
+                disco = {}
+            cur["proto"] = newp
+            probes["reconfigured"] = 1
+            outcomes.append("configure:%s" % newp["version"])
+            continue
+        proto = cur["proto"]
+        version = proto["version"]
+        if version == "v1" and op["op"].startswith("bulk"):
+            continue            # GETBULK does not exist in SNMPv1
+        probes["v1"] |= int(version == "v1")
+        probes["v3_priv"] |= int(bool(proto.get("priv")))
         c0, r0, t0 = len(rec.calls), len(agent.requests), w.clock.reads
         reads_before = w.clock.reads
         exc = None
@@ -235,7 +290,7 @@ def execute(plan: dict) -> dict:
                         continue
                     scoped = dec["scoped"]
                 want_ctx = plan["engine_id_cfg"] or plan["agent_engine_id"]
-                if scoped["ctx_engine"] != want_ctx or scoped["ctx_name"] != plan["context_name"]:
+                if scoped["ctx_engine"] != want_ctx or scoped["ctx_name"] != cur["context_name"]:
                     fail("context", "%s: context %r/%r" % (where, scoped["ctx_engine"], scoped["ctx_name"]))
                 pdu = scoped["pdu"]
             if pdu["rid"] not in ids_ok:
